@@ -6,6 +6,13 @@ value of every option is read back with the real coredata.load + optstore.get_va
 compared with the reference lifecycle model (vf/ref/reflifecycle.py); get_option() messages of successful
 (re)configurations are compared too; the predicted success/failure of every command is compared with the exit
 status (failures must be clean MesonExceptions).
+
+Workload dimensions beyond the step kinds: option VALUES from a hostile alphabet (vf/gen/gen_c08.py; own random stream) for
+string / free array options, top-level and per-subproject, which therefore pass through every reader of the recorded
+command line (configure / reconfigure rewrite it, --wipe and a late subproject re-derive from it); option files that end
+up with ZERO option() calls while they keep existing, and get options again (stratified first edits + directed scripts);
+failures injected at three stages (error() in the build file, backend, postconf script at the very end) after any number of
+successful saves.  Coverage cells (`cell:*`) say which of these a run compared; the deciding ones are required.
 """
 from __future__ import annotations
 
@@ -21,6 +28,7 @@ import typing as T
 
 from vf import common, runner, optprobe
 from vf.ref import reflifecycle as L
+from vf.gen import gen_c08 as G
 
 PID = 'C08'
 
@@ -78,6 +86,9 @@ def render_project(m: L.Model) -> T.Dict[str, str]:
     t.append("if import('fs').exists(meson.current_source_dir() / 'FAIL2')\n"
              "  custom_target('dup1', output: 'dup.out', command: ['true'])\n"
              "  custom_target('dup2', output: 'dup.out', command: ['true'])\nendif")
+    # a failure at the very end of a (re)configuration: coredata, build.dat, the recorded command line and the introspection
+    # files have all been written when a postconf script fails
+    t.append("meson.add_postconf_script('sh', '-c', 'test ! -e \"$MESON_SOURCE_ROOT/FAIL3\"')")
     s = ["project('sub', meson_version: '>=1.1'%s)" % _do(m.dopts['sub'])]
     for n in list(sub) + bi:
         s.append(f"message('OPT sub:{n}=@0@'.format(get_option('{n}')))")
@@ -89,6 +100,12 @@ def render_project(m: L.Model) -> T.Dict[str, str]:
     }
     # a project that declares nothing may also have NO option file at all (m.absent: the file is deleted, not emptied)
     absent = getattr(m, 'absent', set())
+    # an option file that is still there but has no option() call left: blank, or only comments
+    blank = getattr(m, 'blank', {})
+    if not top:
+        out['meson.options'] = blank.get('', '')
+    if not sub:
+        out['subprojects/sub/meson.options'] = blank.get('sub', '')
     if '' in absent and not top:
         out['meson.options'] = None     # type: ignore
     if 'sub' in absent and not sub:
@@ -105,10 +122,14 @@ def render_project(m: L.Model) -> T.Dict[str, str]:
 class Gen:
     """Seeded history generator steering by the model (so that steps are legal) while staying hostile."""
 
-    def __init__(self, rng: random.Random, nsteps: int) -> None:
+    def __init__(self, rng: random.Random, nsteps: int, hr: T.Optional[random.Random] = None, p_hostile: float = 0.0) -> None:
         self.rng = rng
         self.nsteps = nsteps
         self.uid = 0
+        # own random stream for the hostile value alphabet: the main stream (and with it the shape of every history of
+        # earlier versions of this check) stays what it was
+        self.hr = hr or random.Random(0)
+        self.p_hostile = p_hostile
 
     def fresh(self, prefix: str = 'v') -> str:
         self.uid += 1
@@ -117,7 +138,10 @@ class Gen:
     def value_for(self, spec: L.Spec, valid: bool = True) -> str:
         r = self.rng
         if spec.kind == 'string':
-            return '' if (valid and r.random() < 0.12) else self.fresh()
+            v = '' if (valid and r.random() < 0.12) else self.fresh()
+            if v and self.hr.random() < self.p_hostile:
+                v = G.hostile_string(self.hr)
+            return v
         if spec.kind == 'boolean':
             return r.choice(['true', 'false']) if valid else 'maybe'
         if spec.kind == 'integer':
@@ -137,14 +161,17 @@ class Gen:
             if valid and r.random() < 0.12:
                 return ''       # -Dopt= : the empty array
             if spec.choices is None:
-                return ','.join(self.fresh('e') for _ in range(r.randint(1, 3)))
+                v = ','.join(self.fresh('e') for _ in range(r.randint(1, 3)))
+                if self.hr.random() < self.p_hostile:
+                    v = G.hostile_array(self.hr)
+                return v
             ch = spec.choices or []
             if not valid:
                 return 'nochoice'
             if not ch:
                 return ''
             k = r.randint(1, len(ch))
-            return ','.join(r.sample(ch, k))
+            return L.fmt_items(r.sample(ch, k)) or ''
         raise AssertionError
 
     def assignable_keys(self, m: L.Model, files_view: bool) -> T.List[str]:
@@ -232,10 +259,39 @@ class Gen:
             m.files[''].clear()
             m.files[''].update(self.__dict__['directed_snap'])
             return {'edit': 'revert', 'sub': '', 'name': 'c', 'removed': ['extra']}
+        if what in ('empty-sub', 'empty-top'):
+            # the option file stays where it is but loses every option() call
+            sub = 'sub' if what == 'empty-sub' else ''
+            names = list(m.files[sub])
+            for n in names:
+                del m.files[sub][n]
+                m.dopts[sub].pop(n, None)
+            m.blank[sub] = G.empty_option_file(self.hr)     # type: ignore
+            return {'edit': 'remove-all', 'sub': sub, 'name': ','.join(names) or '-', 'file': 'kept:' + repr(m.blank[sub])}     # type: ignore
+        if what in ('refill-sub', 'refill-top'):
+            # ... and gets options again (new names: re-adding a removed name is not generated, see assumptions)
+            sub = 'sub' if what == 'refill-sub' else ''
+            sfx = 's' if sub else 't'
+            m.files[sub]['nt' + sfx] = L.Spec('nt' + sfx, 'string', 'nd' + sfx)
+            m.files[sub]['nk' + sfx] = L.Spec('nk' + sfx, 'combo', 'm', choices=['l', 'm', 'n'])
+            return {'edit': 'add', 'sub': sub, 'name': f'nt{sfx},nk{sfx}', 'kind': 'string+combo'}
         raise AssertionError(what)
 
     def edit(self, m: L.Model) -> T.Dict[str, T.Any]:
         r = self.rng
+        fk = self.__dict__.get('force_kind')
+        if isinstance(fk, str) and fk.startswith('remove-all:'):
+            # stratification: the option file of this (sub)project keeps existing but ends up with ZERO option() calls
+            self.__dict__.pop('force_kind')
+            sub = '' if fk.endswith(':top') else 'sub'
+            f = m.files[sub]
+            self.__dict__.setdefault('snaps', {'': [], 'sub': []})[sub].append(copy.deepcopy(f))
+            names = [n for n in f if n != 'use_late']
+            for n in names:
+                del f[n]
+                m.dopts[sub].pop(n, None)
+            m.blank[sub] = G.empty_option_file(self.hr)     # type: ignore
+            return {'edit': 'remove-all', 'sub': sub, 'name': ','.join(names) or '-', 'file': 'kept:' + repr(m.blank[sub])}     # type: ignore
         sub = r.choice(['', 'sub'])
         f = m.files[sub]
         snaps = self.__dict__.setdefault('snaps', {'': [], 'sub': []})[sub]
@@ -277,6 +333,8 @@ class Gen:
                 m.dopts[sub].pop(n, None)
             if not f and r.random() < 0.5:
                 m.absent.add(sub)      # type: ignore  # the file is deleted instead of emptied
+            elif not f:
+                m.blank[sub] = G.empty_option_file(self.hr)     # type: ignore
             return {'edit': 'remove-all', 'sub': sub, 'name': ','.join(names) or '-'}
         suits = {
             'shrink': lambda sp: sp.kind in ('combo', 'array') and sp.choices is not None and len(sp.choices) > 1,
@@ -332,7 +390,7 @@ class Gen:
                 ch = list(sp.choices or [])
                 victim = None
                 if cur is not None and r.random() < 0.7:
-                    for c in cur.split(','):
+                    for c in (L.items(cur) if sp.kind == 'array' else [cur]):
                         if c in ch:
                             victim = c
                             break
@@ -340,19 +398,19 @@ class Gen:
                     victim = r.choice(ch)
                 ch.remove(victim)
                 sp.choices = ch
-                if any(d not in ch for d in (sp.default.split(',') if sp.default else [])):
-                    sp.default = ch[0]
+                if any(d not in ch for d in (L.items(sp.default) if sp.kind == 'array' else [sp.default])):
+                    sp.default = L.fmt_items([ch[0]]) or '' if sp.kind == 'array' else ch[0]
                 return {'edit': 'shrink', 'sub': sub, 'name': name, 'removed': victim, 'default': sp.default}
             if kind == 'add-choices' and sp.kind == 'array' and sp.choices is None:
                 k = L.key(sub, name)
-                cur = m.value(k).split(',') if (m.st.configured and name in m.st.applied[sub] and m.value(k)) else []
+                cur = L.items(m.value(k)) if (m.st.configured and name in m.st.applied[sub] and m.value(k)) else []
                 ch = [self.fresh('ch'), self.fresh('ch')]
                 if cur and r.random() < 0.4:
                     ch += cur               # the value in effect stays valid
                 elif cur:
                     ch += cur[1:]           # hostile: one item of the value in effect is no longer allowed
                 sp.choices = ch
-                if any(d not in ch for d in (sp.default.split(',') if sp.default else [])):
+                if any(d not in ch for d in L.items(sp.default)):
                     sp.default = ch[0]
                 return {'edit': 'add-choices', 'sub': sub, 'name': name, 'choices': ch, 'default': sp.default}
             if kind == 'remove-choices' and sp.kind == 'array' and sp.choices is not None:
@@ -399,7 +457,7 @@ _MSG = re.compile(r'^(?:\w+\| )?Message: OPT ([\w:]+)=(.*)$', re.M)
 
 def msg_form(spec_kind: str, v: str) -> str:
     if spec_kind == 'array':
-        return '[' + ', '.join("'" + x + "'" for x in (v.split(',') if v else [])) + ']'
+        return '[' + ', '.join("'" + x + "'" for x in L.items(v)) + ']'
     return v
 
 
@@ -419,6 +477,60 @@ def key_class(m: L.Model, k: str) -> str:
     if sub and sp is not None and sp.yielding:
         return 'sub-yielding'
     return ('sub-' if sub else 'top-') + (sp.kind if sp else 'unknown')
+
+
+_TAME = set('abcdefghijklmnopqrstuvwxyzABCDEFGHIJKLMNOPQRSTUVWXYZ0123456789_.,-')
+
+
+def is_hostile(v: str) -> bool:
+    return any(c not in _TAME for c in v)
+
+
+def hostile_classes(v: str) -> T.List[str]:
+    """Which classes of the hostile alphabet a value given on a command line contains (coverage cells)."""
+    if not is_hostile(v):
+        return []
+    out = []
+    tests = [('blank-then-hash', lambda: re.search(r'\s#', v)), ('blank-then-semicolon', lambda: re.search(r'\s;', v)),
+             ('hash', lambda: '#' in v), ('semicolon', lambda: ';' in v), ('equals', lambda: '=' in v), ('colon', lambda: ':' in v),
+             ('percent', lambda: '%' in v), ('quote', lambda: "'" in v or '"' in v), ('bracket', lambda: any(c in v for c in '[](){}')),
+             ('comma-inside-array-element', lambda: v.startswith('[') and any(',' in x for x in _safe_items(v))),
+             ('backslash', lambda: '\\' in v), ('tab-or-blank-run', lambda: '\t' in v or '  ' in v),
+             ('non-ascii', lambda: any(ord(c) > 127 for c in v)), ('outer-blank', lambda: v != v.strip()),
+             ('line-break', lambda: '\n' in v or '\r' in v)]
+    for name, t in tests:
+        if t():
+            out.append(name)
+    return out or ['other-punctuation']
+
+
+def _safe_items(v: str) -> T.List[str]:
+    try:
+        return L.items(v)
+    except (AssertionError, ValueError):
+        return []
+
+
+def classify_record_difference(step: T.Mapping[str, T.Any], expect_ok: bool, got: T.Optional[T.Mapping[str, str]],
+                               exp: T.Mapping[str, str]) -> T.Optional[str]:
+    """Narrow mechanisms for a recorded command line (meson-private/cmd_line.txt) that differs from what the user gave."""
+    cr = [k for k, v in exp.items() if '\r' in v]
+    if cr and (got is None or all(got.get(k) == exp[k].split('\r')[0].rstrip() for k in cr)):
+        # the file cannot be parsed at all (or, read leniently, the value ends at the carriage return)
+        return 'recorded-command-line/carriage-return-in-value-makes-file-unparseable'
+    if got is None:
+        return None
+    if set(got) == set(exp):
+        diff = [k for k in exp if got[k] != exp[k]]
+        if diff and all(exp[k] != exp[k].strip() and got[k] == exp[k].strip() and '\n' not in exp[k] for k in diff):
+            # exactly the value without the blanks it begins / ends with
+            return 'recorded-command-line/outer-blanks-of-value-lost'
+    a = step.get('assign') or {}
+    if step.get('step') == 'reconfigure' and not expect_ok and step.get('failure_kind') == 'FAIL3' and a \
+            and dict(got) == {**exp, **a}:
+        # the failed command's own -D options are in the file, everything else is as expected
+        return 'reconfigure-failed/postconf-stage/recorded-command-line-keeps-rejected-values'
+    return None
 
 
 def monitors(rec: T.Callable[[dict], None]) -> None:
@@ -444,27 +556,92 @@ def monitors(rec: T.Callable[[dict], None]) -> None:
 
 
 FORCE_KINDS = ['shrink', 'extend', 'range', 'add-choices', 'remove-choices', 'change-default', 'remove', 'add']
+# (forced first edits, job options): the option file of the subproject / of both projects / of the top-level project (the
+# subproject then has no option file at all: a yielding child whose parent vanishes is a known finding) declares nothing any more
+FORCE_ZERO: T.List[T.Tuple[T.List[str], T.Dict[str, T.Any]]] = [
+    (['remove-all:sub'], {}),
+    (['remove-all:sub', 'remove-all:top'], {'late': False}),
+    (['remove-all:top'], {'late': False, 'sub_absent': True}),
+]
+
+_HS = 'x # y ; z = w : v %(q)s "d" [b] ü'
+# wave 7: (script, job options)
+DIRECTED_W7: T.List[T.Tuple[T.List[T.Dict[str, T.Any]], T.Dict[str, T.Any]]] = [
+    # values from the hostile alphabet go through every path that reads the recorded command line back: meson configure and
+    # setup --reconfigure (read + rewrite), setup --wipe (re-derivation), a --wipe after the file was rewritten
+    ([{'kind': 'setup', 'assign': {'s': _HS, 'tags': "['p,q', 'r #s ; t=u']", 'sub:t': "it's ; 100% #1", 'y': '@H'}},
+      {'kind': 'configure', 'assign': {'i': '9'}}, {'kind': 'reconfigure'}, {'kind': 'wipe'}, {'kind': 'reconfigure'},
+      {'kind': 'configure', 'assign': {'sub:t': '@H', 'tags': '@HA', 'sub:y': '@H'}}, {'kind': 'wipe'}, {'kind': 'reconfigure', 'assign': {'ds': '@H'}},
+      {'kind': 'wipe', 'assign': {'s': '@H'}}], {}),
+    ([{'kind': 'setup', 'assign': {'s': '@H', 'tags': '@HA', 'sub:t': '@H', 'sub:dt': '@H'}}, {'kind': 'wipe'},
+      {'kind': 'configure', 'assign': {'warning_level': '3'}}, {'kind': 'wipe'}], {}),
+    # a subproject that is configured for the first time by a later reconfigure takes the value the user once gave from the
+    # recorded command line
+    ([{'kind': 'setup', 'assign': {'late:lv': '@H', 's': '@H'}}, {'kind': 'configure', 'assign': {'tags': '@HA'}},
+      {'kind': 'reconfigure', 'assign': {'use_late': 'true'}}, {'kind': 'reconfigure'}, {'kind': 'wipe'}], {'late': True}),
+    # option files that lose every option() call while they keep existing - and get options again
+    ([{'kind': 'setup', 'assign': {'s': 'first', 'sub:k': 'q'}}, {'kind': 'configure', 'assign': {'sub:t': 'tv'}}, {'kind': 'edit', 'what': 'empty-sub'},
+      {'kind': 'reconfigure'}, {'kind': 'configure', 'assign': {'werror': 'true'}}, {'kind': 'edit', 'what': 'refill-sub'}, {'kind': 'reconfigure'},
+      {'kind': 'configure', 'assign': {'sub:nts': 'back'}}, {'kind': 'reconfigure'}], {}),
+    ([{'kind': 'setup', 'assign': {}}, {'kind': 'edit', 'what': 'empty-sub'}, {'kind': 'edit', 'what': 'empty-top'},
+      {'kind': 'reconfigure'}, {'kind': 'configure', 'assign': {'werror': 'true'}}, {'kind': 'edit', 'what': 'refill-top'},
+      {'kind': 'reconfigure'}, {'kind': 'configure', 'assign': {'ntt': 'val'}}, {'kind': 'wipe'}, {'kind': 'reconfigure'}], {'late': False}),
+    ([{'kind': 'setup', 'assign': {}}, {'kind': 'edit', 'what': 'empty-sub'}, {'kind': 'edit', 'what': 'empty-top'},
+      {'kind': 'configure', 'assign': {'unity_size': '9'}}, {'kind': 'reconfigure'}, {'kind': 'edit', 'what': 'refill-sub'},
+      {'kind': 'configure', 'assign': {'werror': 'true'}}, {'kind': 'configure', 'assign': {'sub:nks': 'n'}}, {'kind': 'wipe'}], {'late': False}),
+    ([{'kind': 'setup', 'assign': {'i': '8'}}, {'kind': 'edit', 'what': 'empty-top'}, {'kind': 'reconfigure'},
+      {'kind': 'configure', 'assign': {'warning_level': '3'}}, {'kind': 'edit', 'what': 'refill-top'}, {'kind': 'configure', 'assign': {'warning_level': '2'}},
+      {'kind': 'configure', 'assign': {'nkt': 'l'}}, {'kind': 'reconfigure'}], {'late': False, 'sub_absent': True}),
+    # a reconfiguration that fails AFTER coredata was dumped, once later commands have saved: what comes back is the state
+    # before the failing command, not the state of the first setup (backend stage, and postconf stage at the very end)
+    ([{'kind': 'setup', 'assign': {'i': '2'}}, {'kind': 'configure', 'assign': {'i': '4', 'c': 'c'}},
+      {'kind': 'reconfigure', 'assign': {}, 'inject': 'FAIL2'}, {'kind': 'reconfigure'},
+      {'kind': 'reconfigure', 'assign': {'i': '7', 'sub:k': 'r'}}, {'kind': 'reconfigure', 'assign': {'c': 'b'}, 'inject': 'FAIL2'},
+      {'kind': 'reconfigure'}, {'kind': 'configure', 'assign': {'s': 'late'}}, {'kind': 'reconfigure', 'assign': {}, 'inject': 'FAIL3'},
+      {'kind': 'reconfigure'}, {'kind': 'wipe'}], {}),
+    ([{'kind': 'setup', 'assign': {}}, {'kind': 'reconfigure', 'assign': {'b': 'true', 'warning_level': '3'}},
+      {'kind': 'reconfigure', 'assign': {}, 'inject': 'FAIL3'}, {'kind': 'configure', 'assign': {'sub:werror': 'false'}},
+      {'kind': 'reconfigure', 'assign': {}, 'inject': 'FAIL2'}, {'kind': 'reconfigure'}], {}),
+]
+
+# directed probes of the known findings of this wave (each is re-observed on every run; see known_findings.d/C08.json)
+KNOWN_PROBES: T.List[T.Tuple[T.List[T.Dict[str, T.Any]], T.Dict[str, T.Any]]] = [
+    ([{'kind': 'setup', 'assign': {'s': ' lead', 'sub:t': 'trail '}}, {'kind': 'wipe'}, {'kind': 'reconfigure'}], {}),
+    ([{'kind': 'setup', 'assign': {'s': 'a\rb'}}, {'kind': 'configure', 'assign': {'i': '9'}}, {'kind': 'wipe'}], {}),
+    ([{'kind': 'setup', 'assign': {'s': 'one'}}, {'kind': 'configure', 'assign': {'s': 'two'}},
+      {'kind': 'reconfigure', 'assign': {'s': 'three', 'i': '3'}, 'inject': 'FAIL3'}, {'kind': 'reconfigure'}, {'kind': 'wipe'}], {}),
+]
 
 
 def run_history(job: T.Tuple[T.Any, ...]) -> dict:
     seed, nsteps, root, replay_steps = job[:4]
-    force_first_edit: T.Optional[str] = job[4] if len(job) > 4 else None
+    # kinds of option-file edit that happen (in this order) to the freshly configured directory before any other command
+    forced_edits: T.List[str] = ([job[4]] if isinstance(job[4], str) else list(job[4] or [])) if len(job) > 4 else []
+    opts: T.Dict[str, T.Any] = dict(job[5]) if len(job) > 5 and job[5] else {}
     rng = random.Random(seed)
-    gen = Gen(rng, nsteps)
+    hr = random.Random((seed * 2654435761) ^ 0xC0813)
+    gen = Gen(rng, nsteps, hr, 0.0 if replay_steps is not None else 0.5)
     top, sub = initial_files()
     # two histories out of three have default_options: in both project() calls (own random stream: the histories of earlier
     # versions of this check stay what they were)
     r2 = random.Random(seed ^ 0xD0)
     with_late = r2.random() < 0.6
+    if 'late' in opts:
+        with_late = bool(opts['late'])
     if with_late:
         top['use_late'] = L.Spec('use_late', 'boolean', 'false')
     m = L.Model(top, sub, initial_dopts() if r2.random() < 0.67 else None, late_files() if with_late else None)
     base = os.path.join(root, f'h{seed}')
     src, b = os.path.join(base, 'src'), os.path.join(base, 'b')
     res: T.Dict[str, T.Any] = {'seed': seed, 'steps': [], 'problems': [], 'paths': {}, 'checked_values': 0, 'checked_msgs': 0,
-                               'kinds': {}}
+                               'kinds': {}, 'cells': {}}
     m.absent = set()        # type: ignore  # (sub)projects whose option file does not exist while they declare nothing
-    if replay_steps is None and not with_late and r2.random() < 0.25:
+    m.blank = {}            # type: ignore  # text of an option file that exists but declares nothing
+    saves_since_first_setup = 0     # successful saving commands after the one that created the configuration
+    sub_absent = (replay_steps is None and not with_late and r2.random() < 0.25)
+    if 'sub_absent' in opts:
+        sub_absent = bool(opts['sub_absent'])
+    if sub_absent:
         # the subproject has no option file to begin with (it may get one later through an 'add' edit)
         m.files['sub'].clear()
         m.dopts['sub'].pop('dt', None)
@@ -485,12 +662,16 @@ def run_history(job: T.Tuple[T.Any, ...]) -> dict:
     def note(kind: str) -> None:
         res['kinds'][kind] = res['kinds'].get(kind, 0) + 1
 
+    def cell(name: str) -> None:
+        res['cells'][name] = res['cells'].get(name, 0) + 1
+
     last_edit: T.Dict[str, str] = {}
     redeclared_parents: T.Set[str] = set()   # top-level options whose constraints changed since the store was created
     script = list(replay_steps or [])
     for stepno in range(nsteps if not script else len(script)):
         r = rng.random()
         st = m.st
+        m_record_before = dict(st.record)
         step: T.Dict[str, T.Any]
         forced = script[stepno] if script else None
         # ---- choose a step -------------------------------------------------------------
@@ -503,10 +684,10 @@ def run_history(job: T.Tuple[T.Any, ...]) -> dict:
                 kind = 'restore-and-wipe'
         elif forced is not None:
             kind = forced['kind']
-        elif force_first_edit is not None and not any(x['step'] == 'edit' for x in res['steps']):
+        elif forced_edits:
             # the first thing that happens to the configured directory is an edit of this kind
             kind = 'edit'
-            gen.force_kind = force_first_edit     # type: ignore
+            gen.force_kind = forced_edits.pop(0)     # type: ignore
         elif r < 0.22:
             kind = 'edit'
         elif r < 0.50:
@@ -515,7 +696,7 @@ def run_history(job: T.Tuple[T.Any, ...]) -> dict:
             kind = 'reconfigure'
         else:
             kind = 'wipe'
-        for flag in ('FAIL', 'FAIL2'):
+        for flag in ('FAIL', 'FAIL2', 'FAIL3'):
             if os.path.exists(os.path.join(src, flag)):
                 os.unlink(os.path.join(src, flag))
         expect_ok = True
@@ -533,23 +714,27 @@ def run_history(job: T.Tuple[T.Any, ...]) -> dict:
             note('edit:' + e['edit'])
             continue
         if forced is not None and kind != 'edit':
-            fa, inject_f = dict(forced.get('assign', {})), False
+            # '@H' / '@HA': a value drawn from the hostile alphabet (string / array spelling)
+            fa = {k: (G.hostile_string(hr) if v == '@H' else G.hostile_array(hr) if v == '@HA' else v)
+                  for k, v in forced.get('assign', {}).items()}
+            inject_f = bool(forced.get('inject'))
         if kind == 'setup' and forced is not None:
-            expect_ok = m.setup(fa, False)
+            expect_ok = m.setup(fa, inject_f)
             argv = ['setup', b, src] + flags(fa)
-            step = {'step': 'setup', 'assign': fa, 'inject_failure': False}
+            step = {'step': 'setup', 'assign': fa, 'inject_failure': inject_f}
         elif kind == 'configure' and forced is not None:
-            expect_ok = m.configure(fa, [])
-            argv = ['configure', b] + flags(fa)
-            step = {'step': 'configure', 'assign': fa, 'unset': []}
+            fu = list(forced.get('unset', []))
+            expect_ok = m.configure(fa, fu)
+            argv = ['configure', b] + flags(fa, fu)
+            step = {'step': 'configure', 'assign': fa, 'unset': fu}
         elif kind == 'reconfigure' and forced is not None:
-            expect_ok = m.reconfigure(fa, False)
+            expect_ok = m.reconfigure(fa, inject_f)
             argv = ['setup', '--reconfigure', b, src] + flags(fa)
-            step = {'step': 'reconfigure', 'assign': fa, 'inject_failure': False}
+            step = {'step': 'reconfigure', 'assign': fa, 'inject_failure': inject_f}
         elif kind == 'wipe' and forced is not None:
-            expect_ok = m.wipe(False, fa)
+            expect_ok = m.wipe(inject_f, fa)
             argv = ['setup', '--wipe', b, src] + flags(fa)
-            step = {'step': 'wipe', 'inject_failure': False, 'restored': False, 'assign': fa}
+            step = {'step': 'wipe', 'inject_failure': inject_f, 'restored': False, 'assign': fa}
         elif kind == 'setup':
             assign = gen.assignment(m, rng.randint(0, 4), 0.12, 0.05)
             gen.late_extra(m, 'setup', assign, r2)
@@ -613,15 +798,26 @@ def run_history(job: T.Tuple[T.Any, ...]) -> dict:
             step = {'step': 'wipe', 'inject_failure': inject, 'restored': kind == 'restore-and-wipe', 'assign': wassign}
             inject = inject
         if step.get('inject_failure'):
-            step['failure_kind'] = rng.choice(['FAIL', 'FAIL2'])
+            if forced is not None:
+                step['failure_kind'] = forced['inject']
+            else:
+                step['failure_kind'] = rng.choice(['FAIL', 'FAIL2'])
+                if step['failure_kind'] == 'FAIL2' and hr.random() < 0.5:
+                    step['failure_kind'] = 'FAIL3'      # same stage class (after coredata was dumped), at the very end
             open(os.path.join(src, step['failure_kind']), 'w').close()
+        record_before = dict(m_record_before)
         note(step['step'] + (':expected-fail' if not expect_ok else ''))
         if m.st.late and not late_before and expect_ok:
             note('late-subproject-first-configured-by:' + step['step'] + ('+recorded-options' if any(k.startswith('late:') for k in m.st.record) else ''))
+        for k, v in step.get('assign', {}).items():
+            for c in hostile_classes(v):
+                cell(f'hostile-value-given:{c}:' + ('per-subproject' if ':' in k else 'top-level'))
         rr = runner.meson(argv, cwd=src, monitors=[monitors])
+        saved_now = 0
         for rec in rr.records:
             for k, v in rec.get('paths', {}).items():
                 res['paths'][k] = max(res['paths'].get(k, 0), 0) + v
+            saved_now = max(saved_now, rec.get('paths', {}).get('coredata.save', 0))
         step['rc'] = rr.rc
         step['expect_ok'] = expect_ok
         res['steps'].append(step)
@@ -637,6 +833,8 @@ def run_history(job: T.Tuple[T.Any, ...]) -> dict:
             pending_yield_edit = any(k in last_edit for k in ('sub:y', 'sub:yc'))
             if pending_yield_edit and "'NoneType' object has no attribute 'value'" in tail:
                 problem('lifecycle/yielding/own-declaration-changed-crashes', tail=tail)
+            elif 'configparser.ParsingError' in tail and 'cmd_line.txt' in tail and any('\r' in v for v in record_before.values()):
+                problem('recorded-command-line/carriage-return-in-value-makes-file-unparseable', tail=tail[-500:])
             else:
                 problem(f'{step["step"]}/internal-error', tail=tail)
             break
@@ -678,7 +876,14 @@ def run_history(job: T.Tuple[T.Any, ...]) -> dict:
                 if bad:
                     break
                 g = L.norm(got.get(k))
+                if kind_of(m, k) == 'array' and isinstance(got.get(k), list):
+                    # element lists are compared (two spellings of one array are one value)
+                    g, e = list(got[k]), L.items(e)
                 res['checked_values'] += 1
+                if is_hostile(exp[k]):
+                    cell('hostile-value-compared-after:' + step['step'] + ('' if expect_ok else '-failed'))
+                    if step['step'] == 'wipe' and expect_ok and k in m.st.record:
+                        res['hostile_rederived'] = res.get('hostile_rederived', 0) + 1
                 if g != e and key_class(m, k) == 'sub-yielding' and k not in m.st.user \
                         and k.split(':')[1] not in m.st.applied['']:
                     problem('lifecycle/yielding/parent-removed-still-yields-stale-value', key=k, got=got.get(k), expected=e)
@@ -697,9 +902,22 @@ def run_history(job: T.Tuple[T.Any, ...]) -> dict:
                     break
             if bad:
                 break
+            # which dimensions of the workload this comparison covered (evidence; required in main)
+            for subn, rel in (('', 'meson.options'), ('sub', 'subprojects/sub/meson.options')):
+                if not m.files[subn] and os.path.isfile(os.path.join(src, rel)) and not m.st.applied[subn]:
+                    cell('state-compared-with-zero-option-file:' + (subn or 'top') + ':after-' + step['step'])
+                    res['zero_file_states'] = res.get('zero_file_states', 0) + 1
+            if step['step'] == 'reconfigure' and not expect_ok and step.get('failure_kind') in ('FAIL2', 'FAIL3'):
+                cell(f'late-failure-compared:{step["failure_kind"]}:saves-since-first-setup={min(saves_since_first_setup, 3)}')
+                if saves_since_first_setup:
+                    res['late_failure_after_saves'] = res.get('late_failure_after_saves', 0) + 1
             if rr.rc == 0 and step['step'] in ('setup', 'reconfigure', 'wipe'):
                 seen = dict(_MSG.findall(rr.out))
                 for k, e in exp.items():
+                    if k in seen and (e != e.strip() or '\n' in e or '\r' in e):
+                        # a log line cannot show blanks at its end or a line break inside the value
+                        res['msgs_not_comparable'] = res.get('msgs_not_comparable', 0) + 1
+                        continue
                     if k in seen:
                         res['checked_msgs'] += 1
                         if seen[k] != msg_form(kind_of(m, k), e):
@@ -718,7 +936,8 @@ def run_history(job: T.Tuple[T.Any, ...]) -> dict:
                 rec_now = None
             res['checked_values'] += 1
             if rec_now != m.st.record:
-                problem(f'{step["step"]}{"" if expect_ok else "-failed"}/recorded-command-line-differs',
+                mech = classify_record_difference(step, expect_ok, rec_now, m.st.record)
+                problem(mech or f'{step["step"]}{"" if expect_ok else "-failed"}/recorded-command-line-differs',
                         got=rec_now, expected=m.st.record)
                 break
             if rr.rc == 0:
@@ -726,6 +945,9 @@ def run_history(job: T.Tuple[T.Any, ...]) -> dict:
                     last_edit.pop(k)
                 if step['step'] in ('setup', 'wipe'):
                     redeclared_parents.clear()
+                    saves_since_first_setup = 0
+                elif saved_now:
+                    saves_since_first_setup += 1
         else:
             # unconfigured after a failed first setup or a failed wipe
             if step['step'] == 'wipe' and m.st.record:
@@ -807,24 +1029,20 @@ def run_literal(job: T.Tuple[int, str]) -> dict:
     return res
 
 
-def main() -> int:
-    chk = common.Check(PID)
-    runner.preload()
-    root = common.scratch_dir('c08')
-    rp = os.environ.get('VERIF_REPLAY')
-    if rp:
-        with open(rp, encoding='utf-8') as f:
-            w = json.load(f)
-        res = run_history((w['seed'], len(w.get('history', [])) + 40, root, None))
-        print(json.dumps(res['problems'][:1], indent=1, default=repr)[:3000])
-        if res['problems']:
-            print(f'VIOLATION property={PID} replay={rp}')
-            return 1
-        print('replay: no problem observed')
-        return 0
-    nh, ns = (96, 10) if chk.tier == 'quick' else (1200, 16)
+def build_jobs(cseed: int, tier: str, root: str) -> T.List[T.Tuple[T.Any, ...]]:
+    nh, ns = (96, 10) if tier == 'quick' else (1200, 16)
     # stratified: the first 3 x 8 histories each start (after setup) with one given kind of option-file edit
-    jobs = [(chk.seed * 100003 + i, ns, root, None, FORCE_KINDS[i % len(FORCE_KINDS)] if i < 3 * len(FORCE_KINDS) else None) for i in range(nh)]
+    jobs: T.List[T.Tuple[T.Any, ...]] = []
+    nstrat = 3 * len(FORCE_KINDS)
+    for i in range(nh):
+        forced: T.Any = None
+        jopts: T.Optional[dict] = None
+        if i < nstrat:
+            forced = FORCE_KINDS[i % len(FORCE_KINDS)]
+        elif i < nstrat + 2 * len(FORCE_ZERO):
+            # ... and so is every way for an option file to end up with zero option() calls while it keeps existing
+            forced, jopts = FORCE_ZERO[(i - nstrat) % len(FORCE_ZERO)]
+        jobs.append((cseed * 100003 + i, ns, root, None, forced, jopts))
     directed = [
         # parent of a yielding option disappears: the subproject option must fall back to its own value
         [{'kind': 'setup', 'assign': {'y': 'pv'}}, {'kind': 'edit', 'what': 'remove-parent-y'}, {'kind': 'reconfigure'}],
@@ -858,6 +1076,31 @@ def main() -> int:
          {'kind': 'reconfigure'}],
     ]
     jobs += [(900000 + i, len(sc), root, sc) for i, sc in enumerate(directed)]
+    jobs += [(2_000_000_000 + (cseed % 100000) * 100 + i, len(sc), root, sc, None, jo) for i, (sc, jo) in enumerate(DIRECTED_W7)]
+    jobs += [(920000 + i, len(sc), root, sc, None, jo) for i, (sc, jo) in enumerate(KNOWN_PROBES)]
+    return jobs
+
+
+def main() -> int:
+    chk = common.Check(PID)
+    runner.preload()
+    root = common.scratch_dir('c08')
+    rp = os.environ.get('VERIF_REPLAY')
+    if rp:
+        with open(rp, encoding='utf-8') as f:
+            w = json.load(f)
+        # the witness names the job by its seed: rebuild exactly that job (random, stratified or directed)
+        js = int(w['seed'])
+        cand = [j for cs in {js // 100003, 0, max(0, js - 2_000_000_000) // 100} for t in ('quick', 'thorough')
+                for j in build_jobs(cs, t, root) if j[0] == js]
+        res = run_history(cand[0] if cand else (js, len(w.get('history', [])) + 40, root, None))
+        print(json.dumps(res['problems'][:1], indent=1, default=repr)[:3000])
+        if res['problems']:
+            print(f'VIOLATION property={PID} replay={rp}')
+            return 1
+        print('replay: no problem observed')
+        return 0
+    jobs = build_jobs(chk.seed, chk.tier, root)
     results = common.pmap(run_history, jobs, chk.jobs, timeout=3000)
     for lres in common.pmap(run_literal, [(i, root) for i in range(len(LITERAL_SCRIPTS))], chk.jobs, timeout=600):
         chk.case(('literal', lres['script']))
@@ -870,12 +1113,18 @@ def main() -> int:
         chk.count('steps_executed', len(res['steps']))
         chk.count('monitor:values_compared', res['checked_values'])
         chk.count('monitor:get_option_messages_compared', res['checked_msgs'])
+        chk.count('get_option_messages_not_comparable_outer_blank_or_line_break', res.get('msgs_not_comparable', 0))
         if res.get('timeout'):
             chk.count('watchdog_timeouts')
         for k, v in res['kinds'].items():
             chk.count('step:' + k, v)
         for k, v in res['paths'].items():
             chk.count('persist:' + k, v)
+        for k, v in res.get('cells', {}).items():
+            chk.count('cell:' + k, v)
+        chk.count('monitor:hostile_values_rederived_by_wipe', res.get('hostile_rederived', 0))
+        chk.count('monitor:states_compared_with_zero_option_file', res.get('zero_file_states', 0))
+        chk.count('monitor:late_failed_reconfigure_after_later_saves_compared', res.get('late_failure_after_saves', 0))
         for p in res['problems']:
             chk.violation(p['mechanism'], {k: v for k, v in p.items() if k != 'mechanism'})
     for res in results[:3]:
@@ -884,10 +1133,15 @@ def main() -> int:
     chk.require('monitor:get_option_messages_compared', 100)
     chk.require('persist:coredata.save', 10)
     chk.require('monitor:literal_expectations_checked', 10)
+    chk.require('monitor:hostile_values_rederived_by_wipe', 5)
+    chk.require('monitor:states_compared_with_zero_option_file', 4)
+    chk.require('monitor:late_failed_reconfigure_after_later_saves_compared', 2)
     return chk.finish(
         rule='case = one seeded history (setup / configure -D -U / reconfigure / wipe / option-file edits / injected failures); '
              'distinct = distinct sequences of (step kind, edit kind, expected outcome); non-trivial = at least 3 steps',
         assumptions=['reference lifecycle model = the property text (vf/ref/reflifecycle.py); option-file edits take effect at the next saving command',
+                     'option values: half of the string / free array values come from a hostile alphabet (vf/gen/gen_c08.py); array values only in '
+                     'the two spellings Build-options.md describes; values that begin/end with a blank or hold a line break only in directed probes',
                      'explicit values on yielding options, re-adding removed names, type changes are not generated (documents silent)',
                      'a --wipe whose recorded command line is no longer valid is expected to fail and leave the record intact'])
 
